@@ -552,7 +552,31 @@ class CoreGen:
             return ["POP", "POP"]
         return self.cond() + [("push", r.choice([0, 1, 3])), "JUMPI", "STOP"]   # symbolic JUMPI to an invalid destination
 
+    def tx_probe(self):
+        """what makes the hand-over between two transactions observable in the final state: `s[k] += c` on a plain slot
+        (the second transaction must see the first one's write), `t[k] += c` on a transient slot (it must NOT), and
+        `m[key] += c` on a mapping cell (the chain of hashed cells goes on; the key is a literal or an argument — zero
+        in the first transaction)"""
+        r = self.rng
+        slot, tslot = r.choice([0, 1, 2, 9]), r.choice([0, 1, 3])
+        c1, c2, c3 = r.choice([1, 3, 0x100]), r.choice([1, 5, 0x200]), r.choice([1, 7])
+        items = [("push", slot), "SLOAD", ("push", c1), "ADD", ("push", slot), "SSTORE",
+                 ("push", tslot), "TLOAD", ("push", c2), "ADD", ("push", tslot), "TSTORE"]
+        self.count("tx2:probe")
+        if r.random() < 0.6:
+            key = self.arg() if r.random() < 0.5 else [("push", r.choice([0, 1, 7]))]
+            base = r.choice([5, 6])
+            items += self._hash_loc(key, base) + ["SLOAD", ("push", c3), "ADD"] + self._hash_loc(key, base) + ["SSTORE"]
+            self.count("tx2:probe-map")
+        return items
+
     def program(self):
+        items = self._program()
+        if getattr(self, "tx2", False):
+            items = self.tx_probe() + items
+        return items
+
+    def _program(self):
         items = []
         if self.targets:
             # a caller: one to three call sites between a few other statements, then (mostly) return the whole scratch
@@ -601,13 +625,63 @@ def impl_summary(code: bytes, nargs: int, loop: int, depth: int, oracle: str):
 def impl_run(code: bytes, nargs: int, loop: int, depth: int, oracle: str, callees=None):
     """`oracle` is `unknown` or `sat`, optionally followed by `+static` (the frame runs with is_static set);
     `callees`: address -> code of the other accounts"""
-    static = oracle.endswith("+static")
+    flags = oracle.split("+")[1:]
     oracle = oracle.split("+")[0]
-    return _impl_run(code, nargs, loop, depth, oracle, static, callees or {})
+    return _impl_run(code, nargs, loop, depth, oracle, "static" in flags, callees or {}, two="tx2" in flags)
 
 
-def _impl_run(code: bytes, nargs: int, loop: int, depth: int, oracle: str, static: bool, callees: dict):
-    """the real SEVM with Path.check answering `oracle` to every query; 8 s watchdog. Returns (summary, SymRun | None)"""
+def _second_tx(sr1, pre, nargs: int, static: bool):
+    """what `__main__.run_message` does for a test after setUp: a fresh Path extended with that of the state `pre`,
+    and `SEVM.run_message(pre, message, path)` with the message of the test (here: the same target / caller / origin /
+    value as the first one, calldata = selector ‖ `nargs` symbolic words). Returns a SymRun of this second run"""
+    import dataclasses
+
+    from halmos.__main__ import mk_solver
+    from halmos.bitvec import HalmosBitVec as BV
+    from halmos.bytevec import ByteVec
+    from halmos.exceptions import EvmException, HalmosException, Revert
+    from halmos.sevm import Path
+    from z3 import BitVec
+
+    sevm = sr1.sevm
+    cd = ByteVec()
+    cd.append(b"\x12\x34\x56\x78")
+    for i in range(nargs):
+        cd.append(BV(BitVec(f"a{i}", 256), size=256))
+    message = dataclasses.replace(pre.context.message, data=cd, is_static=static)
+    path = Path(mk_solver(sevm.options))
+    path.extend_path(pre.path)
+    nb0 = len(sevm.logs.bounded_loops)
+    paths, escaped = [], None
+    try:
+        for e in sevm.run_message(pre, message, path):
+            out = e.context.output
+            err = out.error
+            if err is None and out.data is not None:
+                kind = "success"
+            elif err is None:
+                kind = "stuck:NoOutput"
+            elif isinstance(err, Revert):
+                kind = "revert"
+            elif isinstance(err, HalmosException):
+                kind = "stuck:" + type(err).__name__
+            elif isinstance(err, EvmException):
+                kind = D.ERR_TO_HALT.get(type(err).__name__, "evm:" + type(err).__name__)
+            else:
+                kind = "other:" + type(err).__name__
+            paths.append(D.PathRes(kind, out.data, list(e.path.conditions), e, err))
+    except TimeoutError:
+        raise
+    except BaseException as exc:  # noqa: BLE001
+        escaped = f"{type(exc).__name__}: {exc}"
+    return D.SymRun(paths, list(sevm.logs.bounded_loops)[nb0:], [], escaped, sevm, False)
+
+
+def _impl_run(code: bytes, nargs: int, loop: int, depth: int, oracle: str, static: bool, callees: dict, two: bool = False):
+    """the real SEVM with Path.check answering `oracle` to every query; 8 s watchdog. Returns (summary, SymRun | None).
+    `two`: the code first runs the message without argument words (the setUp transaction); when exactly one of its
+    paths ends without error the message with `nargs` words runs from that state (`_second_tx`) and the result is
+    that second run; otherwise the summary is `setup:<number of such paths>`"""
     import signal
     import sys
 
@@ -633,8 +707,17 @@ def _impl_run(code: bytes, nargs: int, loop: int, depth: int, oracle: str, stati
     signal.setitimer(signal.ITIMER_REAL, 8.0, 0.5)   # repeating: halmos may swallow the first TimeoutError
     sr = None
     try:
-        scn = D.Scenario({D.MAIN: code, **callees}, nargs=nargs, static=static)
-        sr = D.symbolic_run(scn, loop=loop, depth=depth)
+        if two:
+            scn = D.Scenario({D.MAIN: code, **callees}, nargs=0, static=False)
+            sr = D.symbolic_run(scn, loop=loop, depth=depth)
+            if not sr.escaped:
+                ok = [p for p in sr.paths if p.kind == "success"]
+                if len(ok) != 1:
+                    return f"setup:{len(ok)}", None
+                sr = _second_tx(sr, ok[0].ex, nargs, static)
+        else:
+            scn = D.Scenario({D.MAIN: code, **callees}, nargs=nargs, static=static)
+            sr = D.symbolic_run(scn, loop=loop, depth=depth)
     except TimeoutError:
         return "timeout", None
     finally:
@@ -807,7 +890,13 @@ def compare_core(ctx, n):
                         ctx.count("core:callee:" + k, v)
             g = CoreGen(rng, nargs, targets=sorted(callees))
             g.has_code = [0x1000] + sorted(callees)
-            code = asm.assemble(g.program())
+            want2 = rng.random() < 0.4
+            g.tx2 = want2
+            items = g.program()
+            if want2 and items and items[-1] in ("REVERT", "INVALID"):
+                # a two-transaction case needs a first transaction that can succeed
+                items[-1] = "RETURN" if items[-1] == "REVERT" else "STOP"
+            code = asm.assemble(items)
         except asm.AsmError:
             continue
         if any(k.startswith("create:") for k in g.hist) and rng.random() < 0.3:
@@ -822,6 +911,10 @@ def compare_core(ctx, n):
         if ("call:value" not in g.hist and any(k in g.hist for k in ("sto:SSTORE", "sto:TSTORE")) and rng.random() < 0.1) or (callees and "call:value" not in g.hist and rng.random() < 0.25):
             oracle += "+static"
             ctx.count("core:static-frame")
+        if "+static" not in oracle and want2:
+            # the same code as two transactions: first without argument words ("setUp"), then the message itself from
+            # the state the first one left (SEVM.run_message; Model.SevmCalls `nextTx`)
+            oracle += "+tx2"
         pre = ["nocode"] + [f"code {a:x} {c.hex()}" for a, c in sorted(callees.items())]
         progs.append((code, nargs, loop, oracle, g, callees, pre))
         q += pre + [f"steps {code.hex()} {nargs} {loop} 20000 {oracle}"]
@@ -833,7 +926,7 @@ def compare_core(ctx, n):
     for (code, nargs, loop, oracle, g, callees, pre), rep in zip(progs, steps_replies):
         total = int(rep.split("=", 1)[1]) if rep.startswith("steps=") else 0
         pick = rng.random()
-        if total <= 1 or pick < 0.4:
+        if total <= 1 or pick < 0.4 or "+tx2" in oracle:      # two transactions: no --depth (it would cut either run)
             depth = 0
         elif pick < 0.85:
             depth = max(1, total + rng.choice([-1, 0, 0, 1]))
@@ -853,6 +946,16 @@ def compare_core(ctx, n):
         rep = next(replies)
         evals = [next(replies) for _ in ins]
         impl, sr = impl_run(code, nargs, loop, depth, oracle, callees)
+        if "+tx2" in oracle and (impl.startswith("setup:") or rep.startswith("setup:")):
+            # the first transaction is not single-path (none or several paths without error): `setup()` refuses; both
+            # sides must say so with the same count
+            ctx.count("core:tx2:setup-not-single")
+            if impl != rep:
+                stale.append({"code": code.hex(), "callees": {hex(a): c.hex() for a, c in callees.items()}, "nargs": nargs, "loop": loop, "depth": depth, "oracle": oracle,
+                              "impl": impl[:300], "model": rep[:300]})
+            continue
+        if "+tx2" in oracle:
+            ctx.count("core:tx2:second-run")
         model = _canon(rep.replace("!", "").rsplit(" fuelout=", 1)[0])   # `!` = the model's tag of the jumpi-invalid-dest site
         impl = _canon(impl)
         ctx.case(("core", code, loop, depth, oracle))
